@@ -1021,7 +1021,8 @@ def _src_items():
     from harness.lib import pygrid
     return [dict(file="holopy/core/metadata.py", qualname="make_coords", name="make_coords_src", fn=pygrid.make_coords),
             dict(file="holopy/core/metadata.py", qualname="data_grid", name="data_grid_src", fn=pygrid.data_grid),
-            dict(file="holopy/core/io/io.py", qualname="_save_im", name="save_im_src", fn=pygrid.save_im_quant)]
+            dict(file="holopy/core/io/io.py", qualname="_save_im", name="save_im_src", fn=pygrid.save_im_quant),
+            dict(file="holopy/core/metadata.py", qualname="to_vector", name="to_vector_src", fn=pygrid.to_vector)]
 
 
 def stage_srctie(ctx):
@@ -1040,7 +1041,10 @@ def run(ctx):
         "_save_im of core/io/io.py: the depth chain gives 8 / 15 / 31 bits and refuses the rest, the value handed to astype is the "
         "model quantiser's argument, so the quantisation error bound and the end points hold for the source's expression "
         "[make_coords_src_is_model, src_pixel_coords, save_im_bits_src_spec, save_im_quant_src_is_model, src_quantiser_error, "
-        "src_quantiser_endpoints]")
+        "src_quantiser_endpoints]; to_vector of core/metadata.py read per component: the plain branch is the model's to_vector (unit "
+        "length for every non-zero 2- or 3-vector), the labelled branch hands a vector on unchanged only when ALL channels are within "
+        "1e-12 of unit length and otherwise divides by the norm, giving unit length [to_vector_src_is_model, src_to_vector_unit, "
+        "to_vector_lab_src_spec, src_to_vector_labelled_unit]")
     guarded(ctx, "prove", ctx.prove)
     guarded(ctx, "source-tie", stage_srctie, ctx)
     boot.boot()
